@@ -46,6 +46,7 @@ func errNil(name string, calls []ssa.Instruction, idx int) guard {
 				if b.Pol < 0 {
 					if b.Via != nil {
 						g.weak = append(g.weak, guardSite{b, in})
+						n++ // tested, through a merged value
 					}
 					continue
 				}
@@ -221,12 +222,25 @@ func (c *Ctx) guarded(fn *ssa.Function, g guard, minSites int, ename string, eff
 		c.fail(construct, c.at(g.unchecked[0]), fmt.Sprintf("result of guard %q is never tested by a branch at %s (check dropped or result ignored)", g.name, join(c.ats(g.unchecked))), sites...)
 		return false
 	}
-	if len(g.sites) < minSites {
-		c.fail(construct, pos, fmt.Sprintf("guard %q: found %d tested site(s), the rule table requires at least %d (check deleted or no longer matching the required argument shape)", g.name, len(g.sites), minSites), sites...)
+	// a test of a merged value (weak site) establishes the failure side of the
+	// guard, not its success side: it counts where only the failure side is
+	// used (failure-edge mode, or a pure "the result is tested" obligation)
+	nSites := len(g.sites)
+	failSites := g.sites
+	if mode == gFailEdge || len(effects) == 0 {
+		nSites += len(g.weak)
+		failSites = append(append([]guardSite{}, g.sites...), g.weak...)
+	}
+	if nSites < minSites {
+		c.fail(construct, pos, fmt.Sprintf("guard %q: found %d tested site(s), the rule table requires at least %d (check deleted or no longer matching the required argument shape)", g.name, nSites, minSites), sites...)
 		return false
 	}
 	if len(effects) < minEffects {
 		c.ob(construct, pos, "undecided", fmt.Sprintf("effect %q: found %d site(s), the rule table requires at least %d", ename, len(effects), minEffects), false, sites)
+		return false
+	}
+	if mode == gDominate && len(effects) > 0 && len(g.sites) == 0 {
+		c.fail(construct, pos, fmt.Sprintf("guard %q is only tested through a value that other paths set without making the check (%d such test(s)): passing that test does not mean the check was made and succeeded", g.name, len(g.weak)), sites...)
 		return false
 	}
 	var bad []string
@@ -247,7 +261,7 @@ func (c *Ctx) guarded(fn *ssa.Function, g guard, minSites int, ename string, eff
 		for _, e := range effects {
 			isEff[e] = true
 		}
-		for _, s := range g.sites {
+		for _, s := range failSites {
 			ir.WalkEdge(s.br.Other(), nil, func(in ssa.Instruction) bool {
 				if isEff[in] {
 					bad = append(bad, fmt.Sprintf("%s (from the failure edge of the check at %s)", c.at(in), c.at(s.site)))
@@ -1077,6 +1091,28 @@ func unionGuard(name string, gs ...guard) guard {
 				if sc == p.Block() && strong[ir.Edge{From: pred, Succ: si}] {
 					found = true
 				}
+			}
+			// ... or, for a value carried into a loop (nil so far, the check
+			// not yet made): no way from that edge to the merged test that
+			// avoids both the check itself and every strong success edge of
+			// the other disjuncts
+			if !found {
+				cut := ir.Cut{}
+				for e2 := range strong {
+					cut[e2] = true
+				}
+				reached := false
+				ir.WalkCtx(p.Block(), 0, pred, cut, func(in ssa.Instruction) bool {
+					if in == w.site {
+						return false
+					}
+					if in == ssa.Instruction(w.br.If) {
+						reached = true
+						return false
+					}
+					return !reached
+				})
+				found = !reached
 			}
 			if !found {
 				ok = false
